@@ -1,0 +1,12 @@
+//go:build verif
+
+// Contracts for package normalize (comment-only; see /verif/DESIGN.md).
+
+package normalize
+
+//@ func RebaseRef(baseRef, ref)
+//@   aspect safe
+//@   modifies nothing
+//@ func Path(ref, basePath)
+//@   aspect safe
+//@   modifies nothing
